@@ -227,6 +227,49 @@ def h_riff(nch: int, frames: int, tail: int, nloops: int, note: int, rate_i: int
     return 1
 
 
+def h_overwrite(prev: int, fr_i: int, nch: int) -> int:
+    """
+    pre: 0 <= prev <= 4 and 0 <= fr_i <= 2 and 1 <= nch <= 2
+    post: _ == 1
+    """
+    CNT[0] += 1
+    prev, fr_i, nch = conc(prev, 0, 4), conc(fr_i, 0, 2), conc(nch, 1, 2)
+    with untraced():
+        # the file export_wav leaves at the path is exactly the encoded RIFF, whatever lay there before (nothing, an empty file, a shorter,
+        # an equally long or a LONGER earlier export - the latter happens when two exports resolve to one path or a directory is reused)
+        import os
+        import shutil
+        import tempfile
+        from smpl_extract.generalized.wav import export_wav
+        fr = (0, 10, 2049)[fr_i]
+        enc = StreamEncoding(endianess=Endianess.LITTLE, sample_width=2, num_interleaved_channels=1)
+        mk = lambda: Sample(name="x", num_channels=nch, sample_rate=44100,
+                            data_streams=[DataStream(_Bytes(bytes((7 * c + i) & 0xFF for i in range(2 * fr))), enc) for c in range(nch)],
+                            midi_note=None, pitch_offset_semi=None, pitch_offset_cents=None, loop_regions=[])
+        ref = io.BytesIO()
+        WavSampleBuilder.build_stream(mk(), ref)
+        ref = ref.getvalue()
+        d = tempfile.mkdtemp(prefix="vf_c04_")
+        try:
+            path = os.path.join(d, "x.wav")
+            if prev > 0:
+                n = (0, 0, max(0, len(ref) - 9), len(ref), len(ref) + 4001)[prev]
+                with open(path, "wb") as fh:
+                    fh.write(b"\xee" * n)
+            export_wav(mk(), path)
+            with open(path, "rb") as fh:
+                got = fh.read()
+        finally:
+            shutil.rmtree(d, ignore_errors=True)
+        if got != ref:
+            return 0
+        try:
+            walk_riff(got)
+        except ValueError:
+            return 0
+    return 1
+
+
 RUNS = ["smpl_extract.formats.wav:WavFormatChunkStruct", "smpl_extract.formats.wav:WavSampleChunkStruct", "smpl_extract.formats.wav:RiffStruct",
         "smpl_extract.generalized.wav:WavSampleAdapter._encode", "smpl_extract.generalized.wav:get_smpl_chunk_data",
         "smpl_extract.generalized.wav:get_fmt_chunk_data", "smpl_extract.generalized.wav:get_smpl_normalized_pitch"] + c12.RUNS
@@ -263,4 +306,6 @@ def obligations(tier, seed):
     for o in c03.obligations(tier, seed):
         if o["name"].startswith("C03.drain"):
             obs.append(dict(o, name=o["name"].replace("C03.drain", "C04.frames/cdda")))
+    obs.append(ob("C04.overwrite", "h_overwrite", [], "what lay at the output path before (nothing / empty / shorter / equal / longer), frame count, channels",
+                  "5 x 3 x 2 shapes; real export_wav into a temporary directory"))
     return obs
